@@ -405,6 +405,13 @@ pub fn run(tier: Tier) -> i32 {
         }
         nums.push("-2147483648".into());
         nums.push("-2147483649".into());
+        // code points that Unicode classes as numeric but that are not DIGIT: superscripts, Arabic-Indic, full-width,
+        // Roman numerals, fractions, mathematical digits, Bengali -- alone, after '-', before and after ASCII digits
+        for u in ["\u{b2}", "\u{b9}", "\u{663}", "\u{6f3}", "\u{ff11}", "\u{216b}", "\u{bd}", "\u{1d7d3}", "\u{9e9}", "\u{2460}", "\u{3007}"] {
+            for form in ["{u}", "-{u}", "1{u}", "-1{u}", "{u}1", "-{u}1", "-{u}{u}", "0{u}"] {
+                nums.push(form.replace("{u}", u));
+            }
+        }
         for n in &nums {
             for form in [format!("[{}]", n), format!("a[{}]", n), format!("a[{}:{}]", n, n), format!("a[::{}]", n), format!("a[{}:]", n), format!("[{}:{}:{}]", n, n, n)] {
                 st.states += 1;
